@@ -1067,6 +1067,9 @@ class TestResult(unittest.TestResult):
             self.stop()
 
     def stopTest(self, test):
+        # Normally a result event has already restored the standard
+        # streams; a test aborted by e.g. KeyboardInterrupt has none.
+        self._restoreStdStreams()
         self.testTearDown()
         # Without clearing, cyclic garbage referenced by the test
         # would be reported in the following test.
